@@ -472,6 +472,12 @@ ENVIRONMENTS = {
     "masquerade: darwin, Python 3.9, 32-bit sys.maxsize": {"VERIF_MASQUERADE": "darwin,py39,maxsize32"},
     "masquerade: enum membership test as in Python 3.8-3.11 (TypeError for non-members)": {"VERIF_MASQUERADE": "old-enum"},
     "masquerade: emscripten, recursion limit 220": {"VERIF_MASQUERADE": "emscripten,small-recursion"},
+    # the wall clock as Python code sees it at remarkable instants (everything the property lets depend on time takes the clock through the two substituted hooks)
+    "masquerade: wall clock on a leap day (2028-02-29)": {"VERIF_MASQUERADE": "clock:leapday", "@skip_labels": "real-clock"},
+    "masquerade: wall clock at the 32-bit rollover (2038-01-19)": {"VERIF_MASQUERADE": "clock:y2038", "@skip_labels": "real-clock"},
+    "masquerade: wall clock at the turn of a year, far future, a Sunday, the past": {"VERIF_MASQUERADE": "clock:newyear", "@skip_labels": "real-clock"},
+    "masquerade: wall clock in 2090": {"VERIF_MASQUERADE": "clock:far", "@skip_labels": "real-clock"},
+    "masquerade: wall clock in 2019": {"VERIF_MASQUERADE": "clock:past", "@skip_labels": "real-clock"},
     # hosts that cannot do everything: outcomes may turn into errors, but nothing the default environment refuses may be accepted (one-directional comparison)
     "degraded: SHA-1 / MD5 disabled (FIPS policy)": {"VERIF_MASQUERADE": "fips", "@monotone": "1"},
     "degraded: cryptography backend in FIPS mode": {"VERIF_MASQUERADE": "backend-fips", "@monotone": "1", "@strict_groups": "options"},
@@ -496,7 +502,7 @@ def lookalike_bytes():
     return out
 
 
-def interleaved(run_a, run_b, repo=None, max_events=3000, every=1):
+def interleaved(run_a, run_b, repo=None, max_events=3000, every=1, opcodes=False):
     """Deterministic two-thread schedule exploration at line granularity: run_a() executes on the calling thread under a trace hook which, at every
     `line` event inside /repo's webauthn package (every `every`-th one), lets ANOTHER thread execute run_b() to completion before run_a continues.
     -> (outcome of run_a, list of outcomes of run_b, number of switch points).  Anything run_a keeps in shared mutable state between two of its own
@@ -506,7 +512,9 @@ def interleaved(run_a, run_b, repo=None, max_events=3000, every=1):
     outs_b, state = [], {"busy": False, "n": 0, "k": 0}
 
     def local_trace(frame, event, arg):
-        if event == "line" and not state["busy"] and state["n"] < max_events:
+        if opcodes:
+            frame.f_trace_opcodes = True          # switch points at every BYTECODE instruction (windows inside one source line)
+        if event == ("opcode" if opcodes else "line") and not state["busy"] and state["n"] < max_events:
             state["k"] += 1
             if state["k"] % every == 0:
                 state["busy"] = True
@@ -518,8 +526,40 @@ def interleaved(run_a, run_b, repo=None, max_events=3000, every=1):
         return local_trace
 
     def global_trace(frame, event, arg):
-        return local_trace if frame.f_code.co_filename.startswith(prefix) else None
+        if frame.f_code.co_filename.startswith(prefix):
+            if opcodes:
+                frame.f_trace_opcodes = True
+            return local_trace
+        return None
 
+    if opcodes and hasattr(sys, "monitoring"):
+        # instruction-level switch points (PEP 669): a complete run_b between every two BYTECODE instructions run_a executes inside the library
+        mon = sys.monitoring
+        me = threading.get_ident()
+        tool = 4
+
+        def on_instruction(code, offset):
+            if state["busy"] or threading.get_ident() != me or not code.co_filename.startswith(prefix) or state["n"] >= max_events:
+                return
+            state["k"] += 1
+            if state["k"] % every:
+                return
+            state["busy"] = True
+            state["n"] += 1
+            t = threading.Thread(target=lambda: outs_b.append(run_b()))
+            t.start()
+            t.join()
+            state["busy"] = False
+        mon.use_tool_id(tool, "verif-interleave")
+        mon.register_callback(tool, mon.events.INSTRUCTION, on_instruction)
+        mon.set_events(tool, mon.events.INSTRUCTION)
+        try:
+            a = run_a()
+        finally:
+            mon.set_events(tool, 0)
+            mon.register_callback(tool, mon.events.INSTRUCTION, None)
+            mon.free_tool_id(tool)
+        return a, outs_b, state["n"]
     old = sys.gettrace()
     sys.settrace(global_trace)
     try:
@@ -671,6 +711,7 @@ def _env_invariance(chk, group):
         args = env.pop("@args", "").split()
         env.pop("@monotone", None)
         env.pop("@strict_groups", None)
+        env.pop("@skip_labels", None)
         if tree is not None:
             keys[name] = os.path.join(cache_dir, hashlib.sha256(repr((tree, group, name, sorted(extra.items()), sys.version)).encode()).hexdigest()[:32] + ".json")
             try:
@@ -709,6 +750,8 @@ def _env_invariance(chk, group):
             chk.evals += 1
             n += 1
             got = m.get(label)
+            if environments[name].get("@skip_labels") and environments[name]["@skip_labels"] in label:
+                continue
             if environments[name].get("@monotone") and group not in environments[name].get("@strict_groups", "").split(","):
                 if not (got is not None and got.startswith("OK") and not out.startswith("OK")):
                     continue        # a degraded host may fail where the default one succeeds - it may not accept what the default one refuses
